@@ -25,7 +25,7 @@ func runC03(p *Program, r *Report) {
 	for _, m := range []struct {
 		r string
 		n int
-	}{{"C03.R1", 15}, {"C03.R2", 1}, {"C03.R4", 15}, {"C03.R5", 5}, {"C03.R6", 4}, {"C03.R7", 2}, {"C03.R8", 1}, {"C03.R9", 1}, {"C03.R10", 1}, {"C03.R11", 1}, {"C03.R12", 2}} {
+	}{{"C03.R1", 15}, {"C03.R2", 1}, {"C03.R4", 15}, {"C03.R5", 5}, {"C03.R6", 4}, {"C03.R7", 2}, {"C03.R8", 1}, {"C03.R9", 1}, {"C03.R10", 1}, {"C03.R11", 1}, {"C03.R12", 1}, {"C03.R13", 1}} {
 		r.Min(m.r, m.n)
 	}
 	pl, err := loadPolicy(p)
@@ -127,6 +127,7 @@ func runC03(p *Program, r *Report) {
 	checkOpaqueBodyNotUndone(p, r, "C03.R10")
 	checkInstalledFuncMaps(p, r, "C03.R11")
 	checkPredefinedEscaperTest(p, r, "C03.R12")
+	checkChainAppendedUnconditionally(p, r, "C03.R13")
 	checkAttrNameContinuation(p, r, "C03.R9")
 }
 
